@@ -11,6 +11,7 @@ import (
 	"strconv"
 	"strings"
 	"sync"
+	"sync/atomic"
 	"testing"
 	"time"
 
@@ -156,6 +157,28 @@ func system(rec *mon.Recorder, c int) {
 	rec.Current(desc)
 	cl := sim.New(sim.Options{Nodes: nodes, Dir: os.Getenv("VERIF_SCRATCH") + fmt.Sprintf("/c10-%d", c), TickEvery: 10 * time.Millisecond, Seed: rec.Seed() + int64(c)})
 	defer cl.Close()
+	// a partition whose log writes are stalled for a while (see the abandoned-write phase below)
+	var stalledGroup atomic.Value
+	stalledGroup.Store(uuid.UUID{})
+	cl.SaveDelay = func(n *sim.Node, g uuid.UUID) time.Duration {
+		if sg := stalledGroup.Load().(uuid.UUID); !uuid.Equal(sg, uuid.Nil) && uuid.Equal(sg, g) {
+			return 350 * time.Millisecond
+		}
+		return 0
+	}
+	// one node applies late: with two replicas per partition, its partition groups' ready-loops are held for a while
+	// before every Ready (it has stored and acknowledged an entry well before it applies it), so that an operation
+	// issued on it right after a write acknowledged through another node meets a replica that has not applied that write
+	var slowNode uint64
+	if repl >= 2 && nodes >= 2 {
+		slowNode = uint64(1 + c%nodes)
+		cl.OnEvent = func(n *sim.Node, g uuid.UUID, point string, args ...interface{}) {
+			if point == "ready" && n.Id == atomic.LoadUint64(&slowNode) && !uuid.Equal(g, uuid.Nil) {
+				time.Sleep(15 * time.Millisecond)
+			}
+		}
+		rec.Count("cases_with_a_replica_that_applies_late", 1)
+	}
 	if err := cl.Start(); err != nil {
 		rec.Inconclusive(desc + ": cluster start: " + err.Error())
 		return
@@ -297,7 +320,9 @@ func system(rec *mon.Recorder, c int) {
 						fail("write-failed:"+ins, fmt.Sprintf("%s through node %d: %v", ins, entry.Id, err))
 						return
 					}
-					expectStored(id, ins, true)
+					if atomic.LoadUint64(&slowNode) == 0 || serial%2 == 0 {
+						expectStored(id, ins, true)
+					} // else: the update follows the acknowledgement at once, wherever the replicas are
 					other := cl.Nodes[(e+1)%nodes]
 					if err := call(other, upd, id, float32(serial)+0.5); err != nil {
 						fail("not-found-from-other-node:"+upd, fmt.Sprintf("%s of id written through node %d issued on node %d: %v", upd, entry.Id, other.Id, err))
@@ -315,6 +340,7 @@ func system(rec *mon.Recorder, c int) {
 			}
 		}
 	}
+	atomic.StoreUint64(&slowNode, 0)
 	// --- batches that span partitions: every item of one request goes to its own
 	// owner, whatever else is in the request
 	for round := 0; round < 3 && !violated; round++ {
@@ -373,6 +399,49 @@ func system(rec *mon.Recorder, c int) {
 				expectStored(id, "multi-"+step, step != "batch-remove")
 			}
 			rec.Seen("paths", "multi-partition-"+step)
+		}
+	}
+	// --- a write whose caller gives up while its partition's log write is stalled (a slow disk), followed at once by
+	// a write for another partition: whatever becomes of the abandoned write, it and the write after it are stored in
+	// their own partitions only
+	for round := 0; round < 4 && !violated && parts >= 2; round++ {
+		var a, b uuid.UUID
+		rng.Read(a[:])
+		pa := int(utils.UuidMod(a, uint64(parts)))
+		for {
+			rng.Read(b[:])
+			if int(utils.UuidMod(b, uint64(parts))) != pa {
+				break
+			}
+		}
+		entry := cl.Nodes[round%nodes]
+		stalledGroup.Store(pids[pa])
+		cctx, cancel := context.WithTimeout(ctx, 120*time.Millisecond)
+		var errA error
+		if round%2 == 0 {
+			errA = entry.Dataset(dsId).Insert(cctx, a, []float32{3000, 1, 2}, map[string]string{"p": "abandoned"})
+		} else {
+			_, errA = entry.Dataset(dsId).BatchInsert(cctx, []*pb.BatchItem{{Id: a.Bytes(), Value: []float32{3000, 1, 2}, Metadata: map[string]string{"p": "abandoned"}}})
+		}
+		cancel()
+		// the next write, through the same node, for another partition
+		errB := call(entry, []string{"insert", "batch-insert"}[(round/2)%2], b, 3001)
+		stalledGroup.Store(uuid.UUID{})
+		if errA == nil {
+			rec.Count("stalled_writes_that_were_acknowledged_anyway", 1)
+		} else {
+			rec.Count("writes_abandoned_by_their_caller", 1)
+		}
+		time.Sleep(500 * time.Millisecond) // the stalled write completes (or not)
+		if errB != nil {
+			continue
+		}
+		expectStored(b, "a-write-that-followed-an-abandoned-write", true)
+		if h := holders(a); len(h) > 1 || (len(h) == 1 && len(h[pa]) == 0) {
+			fail("misplaced-abandoned-write", fmt.Sprintf("id %s (owner partition %d) whose insert was abandoned by its caller is held by partition->nodes %v", a, pa, h))
+		}
+		if h := holders(b); len(h[pa]) > 0 {
+			fail("misplaced-after-a-write-that-followed-an-abandoned-write", fmt.Sprintf("id %s (owner partition %d) is also held by partition %d, whose abandoned write was in flight: %v", b, utils.UuidMod(b, uint64(parts)), pa, h))
 		}
 	}
 	// --- every restart computes the same owner: items written before a restart (by
